@@ -86,6 +86,11 @@ func fnSInterCard(ctx *cmdContext, args map[string]any) (output respValue, err e
 		return
 	}
 
+	if limit64 < 0 {
+		output.data = respErrorString("ERR LIMIT can't be negative")
+		return
+	}
+
 	strs := make([]string, 0, len(keyNames))
 	for i := 0; i < len(keyNames); i++ {
 		strs = append(strs, keyNames[i].(string))
